@@ -13,7 +13,9 @@ let nat_of_int i =
 let rec int_of_nat_acc acc (n : nat) : int = match n with O -> acc | S m -> int_of_nat_acc (acc + 1) m
 let int_of_nat n = int_of_nat_acc 0 n
 
-let nat_s s = nat_of_int (int_of_string s)
+let nat_s s =
+  let v = int_of_string s in
+  if v > 5_000_000 then failwith ("number too large for the unary model: " ^ s) else nat_of_int v
 let opt_nat s = if s = "-" then None else Some (nat_s s)
 let show_opt = function None -> "-" | Some n -> string_of_int (int_of_nat n)
 
@@ -195,12 +197,48 @@ let rec show_tree (t : tree) : string =
     "L(" ^ String.concat "," (List.map show_tree its) ^ "^" ^ String.concat "," ks ^ ")"
   | _ -> "Inv"
 
+(* The spec reader unfolds sharing; on blocks with deep sharing or (malformed) cycles that is exponential.
+   [tree_cost] is the size of the unfolding (capped), computed with memoisation; beyond the cap the
+   driver prints "?" and the comparison is skipped for that entry (the harness prints "~" there). *)
+let cost_cap = 20000
+let tree_cost (cells : cell array) (a : int) : int =
+  let n = Array.length cells in
+  let memo : (int, int) Hashtbl.t = Hashtbl.create 64 in
+  let kids_of k =
+    match cells.(k) with
+    | CPair (l, r) | CRange (l, r) | CSlice (l, r) | CPartial (l, r) | CConcat (l, r)
+    | CValue (l, r) | CRegister (l, r) | CFrame (l, r) -> [int_of_nat l; int_of_nat r]
+    | CValueRoot v | CRegisterRoot v | CFrameIndex v | CFrameRegister v | CInstrData (_, v) -> [int_of_nat v]
+    | CList (len, _) | CUninitList (len, _) ->
+      let m = int_of_nat len * 2 in
+      let out = ref [] in
+      for j = k + 1 to min (n - 1) (k + m) do
+        (match cells.(j) with
+         | CListItem x | CAssocItem (_, x) -> out := int_of_nat x :: !out
+         | _ -> ())
+      done; !out
+    | _ -> [] in
+  let rec go k =
+    if k < 0 || k >= n then 1 else
+      match Hashtbl.find_opt memo k with
+      | Some (-1) -> cost_cap
+      | Some c -> c
+      | None ->
+        Hashtbl.replace memo k (-1);
+        let c = List.fold_left (fun acc x -> if acc >= cost_cap then acc else min cost_cap (acc + go x)) 1 (kids_of k) in
+        Hashtbl.replace memo k c; c in
+  go a
+
+let safe_read (s : store) (a : nat) : tree option =
+  let arr = Array.of_list s.cells in
+  if tree_cost arr (int_of_nat a) >= cost_cap then None else read_any s.cells a
+
 let tree_at (s : store) (a : nat) : string =
   if int_of_nat a >= int_of_nat (cursor s) then "Err"
-  else match read_any s.cells a with Some t -> show_tree t | None -> "?"
+  else match safe_read s a with Some t -> show_tree t | None -> "?"
 
 let head_tree (s : store) (h : nat option) : tree option =
-  match h with None -> None | Some a -> read_any s.cells a
+  match h with None -> None | Some a -> safe_read s a
 
 let show_regs (l : tree list) = "R[" ^ String.concat ";" (List.map show_tree l) ^ "]"
 
@@ -218,7 +256,7 @@ let snapshot (s : store) (syms : n list) (keep : (string * nat) list) : string =
       hex_of_n sy ^ "=" ^ (match symbol_index s sy with
           | None -> "err" | Some None -> "none"
           | Some (Some idx) ->
-            (match read_any s.cells idx with
+            (match safe_read s idx with
              | Some (TNode (CCharList _, l)) ->
                dotted (List.map (function TNode (CChar c, []) -> hex_of_n c | _ -> "err") l)
              | _ -> "?"))) syms) ^ "]" in
